@@ -1,9 +1,17 @@
 import json,sys
 pid=sys.argv[1]
+rnd=sys.argv[2] if len(sys.argv)>2 else ''
+import re,os
+prev=[]
+if rnd:
+    for l in open('/verif/notes/SEEDS.md'):
+        m=re.match(r'\| (%s_\d+) \| (.*?) \| (.*?) \|'%pid,l)
+        if m: prev.append('  - '+m.group(2)+' ['+m.group(3)+']')
 for l in open('/verif/properties.jsonl'):
     p=json.loads(l)
     if p['id']==pid: break
 wt=f'/tmp/seed_{pid}'
+prevtxt=('\n\nALREADY USED in an earlier round (do NOT repeat these or close variants; go for different code sites, different sentences of the property, and different triggering conditions — prefer the parts of the anchored code these did not touch):\n'+'\n'.join(prev)) if prev else ''
 print(f'''You are testing how well a verification suite (which you cannot see) detects regressions in the Rust crate `icy_engine` (an engine for ANSI/BBS art and terminal emulation). Your job: craft realistic, subtle BUGS — source changes that break ONE stated behavioural property of the crate while the crate still compiles and its existing test suite still passes — and demonstrate each with a small test.
 
 You work ONLY in your own scratch git worktree of the repository: `{wt}` (already created for you; it is a detached checkout of the current repository head). Do not read or write anything under /verif, and do not touch /repo itself. No network is available; `cargo` works offline (use `CARGO_NET_OFFLINE=true cargo ... --offline`).
@@ -20,6 +28,6 @@ WHAT TO PRODUCE: THREE different changes (mutations), each as a separate unified
   2. leaves the existing test suite passing exactly as before — run `cd {wt} && CARGO_NET_OFFLINE=true cargo test --offline 2>&1 | grep -E "^test result|FAILED" ` BEFORE any change to learn the baseline (some `parsers::rip` / `parsers::igs` tests fail already; that set must not grow) and again with each change applied,
   3. violates the property above in a way that needs something SPECIFIC to manifest — a particular multi-step sequence of operations, an unusual but in-scope input, a boundary value, a particular interleaving/order, or two cooperating code sites that each look fine alone. Do NOT make changes that ordinary use or any casual test would expose at once (e.g. breaking the common path for every input), and do not make changes unrelated to the property. Realistic = the kind of slip a maintainer could make in a refactor or "optimisation": an off-by-one on a boundary, a dropped clamp on one path, a swapped pair of fields in one arm, state not reset in one transition, a comparison that ignores one field, a changed constant in one table entry, an early return that skips bookkeeping.
   4. comes with a demonstration: a small Rust test file `demo_N.rs` (to be dropped into `{wt}/tests/` as an integration test using only the crate's public API, `use icy_engine::...;`) containing one `#[test]` that PASSES on the unmodified worktree and FAILS (assertion failure, panic, or timeout you detect yourself) with mutation N applied. Verify both directions yourself by actually running it (`cargo test --offline --test demo_N`).
-Make the three mutations genuinely different from each other (different code sites and different triggering conditions), all squarely within the property's scope as worded above.
+Make the three mutations genuinely different from each other (different code sites and different triggering conditions), all squarely within the property's scope as worded above.{prevtxt}
 
 DELIVERABLE LAYOUT (create it): `{wt}/SEEDS/` containing for N = 1, 2, 3: `mutation_N.diff` (output of `git diff` for that mutation alone, relative to the worktree head; must apply with `git apply` on a clean checkout), `demo_N.rs`, and one `README.md` describing for each N: which sentence of the property it breaks, the exact triggering condition, why the existing tests do not notice, and the commands you ran with their observed results (baseline test summary, with-mutation test summary, demo pass/fail both ways). Leave the worktree itself CLEAN at the end (`git checkout -- . && git clean -fd tests/` but keep `SEEDS/`). Your final message: a 10-line summary of the three mutations (files touched, trigger, one line each).''')
